@@ -95,9 +95,12 @@ class Scratch:
             "gost_yescrypt,md5crypt,nt,scrypt,sha1crypt,sha256crypt,"
             "sha512crypt,sunmd5,yescrypt,")
         self.hashes_enabled = hashes_enabled
+        compat = self._mkvar("COMPAT_ABI", "yes")
+        if self.hashes and ",descrypt," not in self.hashes:
+            compat = "no"      # configure: without descrypt the obsolete APIs are disabled
         symargs = ["SYMVER_MIN=" + self._mkvar("SYMVER_MIN", "GLIBC_2.0"),
                    "SYMVER_FLOOR=" + self._mkvar("SYMVER_FLOOR", "GLIBC_2.2.5"),
-                   "COMPAT_ABI=" + self._mkvar("COMPAT_ABI", "yes")]
+                   "COMPAT_ABI=" + compat]
         gens = [
             ("crypt-hashes.h", ["gen-crypt-hashes-h",
                                 os.path.join(lib, "hashes.conf"), hashes_enabled]),
